@@ -179,6 +179,20 @@ fn run_resume(sc: &Scenario, cx: &mut Cx) -> CaseResult {
             .filter(|l| l.ok)
             .map(|l| l.key.path.clone())
             .collect();
+        let gap = PROBE_GAP.with(|t| t.get());
+        if gap > 0 {
+            // renumber the interrupted run's band far above the others (as after thousands of
+            // deleted versions)
+            let before: BTreeSet<u32> = format::scan(&base.pristine).bands.keys().copied().collect();
+            let now = format::scan(&base.world.arch);
+            if let Some(nb) = now.bands.keys().copied().find(|b| !before.contains(b)) {
+                std::fs::rename(
+                    base.world.arch.join(format::band_dirname(nb)),
+                    base.world.arch.join(format::band_dirname(nb + gap)),
+                )
+                .unwrap();
+            }
+        }
         let ra1 = format::scan(&base.world.arch);
         let interrupted_band = ra1.bands.keys().copied().max();
         let (r2, ctl2) = base.backup(sc.opts, Plan::None);
@@ -329,10 +343,41 @@ fn enumerate(_tier: Tier, idx: u32, of: u32, cx: &mut Cx) -> CaseResult {
     crate::engine::force_remove(&sub);
     cx.add_evals(cx2.evals);
     cx.inner_nontrivial += cx2.inner_nontrivial;
+
+    // the same relation when the interrupted band sits 12 000 ids above its basis
+    crate::engine::heartbeat();
+    let o = Opts { hunk: 2, block: 1 << 16, cap: 1 << 20 };
+    let sc = Scenario {
+        initial: tree::wide_tree(40, 2, 5, crate::probes::plain_meta()),
+        prefix: vec![crate::history::Op::Backup(o)],
+        edits: vec![],
+        opts: Opts { hunk: 3, ..o },
+        id_spread: 1,
+        headless_band: 0,
+    };
+    let sub = cx.dir("resume-wide-id-gap");
+    std::fs::create_dir_all(&sub).unwrap();
+    let mut cx2 = crate::engine::sub_cx(cx, sub.clone());
+    cx2.tier = Tier::Quick;
+    cx2.only_inner = None;
+    PROBE_THIN.with(|t| t.set(8));
+    PROBE_GAP.with(|t| t.set(12_000));
+    let r = run_resume(&sc, &mut cx2);
+    PROBE_THIN.with(|t| t.set(0));
+    PROBE_GAP.with(|t| t.set(0));
+    r.map_err(|mut f| {
+        f.signature = format!("{}/probe-resume-wide-id-gap", f.signature);
+        f
+    })?;
+    crate::engine::force_remove(&sub);
+    cx.add_evals(cx2.evals);
+    cx.inner_nontrivial += cx2.inner_nontrivial;
     Ok(())
 }
 
 thread_local! {
+    /// When non-zero, run_resume moves the interrupted band this many ids up (used by the probe).
+    static PROBE_GAP: std::cell::Cell<u32> = const { std::cell::Cell::new(0) };
     /// When non-zero, run_resume thins its crash points to this many (used by the probe).
     static PROBE_THIN: std::cell::Cell<usize> = const { std::cell::Cell::new(0) };
 }
@@ -341,7 +386,7 @@ pub fn prop() -> Prop<Case> {
     Prop {
         id: "C14",
         level: "exploration",
-        rule: "three case kinds. Twice: (options1, options2, tree) backed up twice untouched: the logged storage trace of run 2 has no write under d/, written_blocks==0, independently decoded addresses per path identical; non-trivial = tree has a combined block and a multi-block file. Hist: history as C02 with every storage operation logged with the pre-state of its path: no write to a d/ path that exists with non-zero length; non-trivial = >=2 backups with deduplication. Resume: scenario (prefix<=3 ops, edits, options) x every crash point of the backup's trace (before each mutating op + torn variant for writes; quick tier thins to <=60 per scenario), then a resumed backup of the unchanged source: block paths successfully written by run 1 are not written by run 2, every entry the interrupted band recorded keeps its addresses in the resumed band, and every file unchanged (size, mtime) with respect to the stitched basis at the moment of the crash is recorded with the basis entry's addresses; non-trivial = crash point after >=1 block write (counted per (scenario, crash point), distinct by construction). Fixed scale probes per run: the twice-relation on files stored as single blocks of several MiB (two of them identical), and the resume relation at 20 crash points of a backup over a basis band of 200 two-entry hunks with one file added at the front",
+        rule: "three case kinds. Twice: (options1, options2, tree) backed up twice untouched: the logged storage trace of run 2 has no write under d/, written_blocks==0, independently decoded addresses per path identical; non-trivial = tree has a combined block and a multi-block file. Hist: history as C02 with every storage operation logged with the pre-state of its path: no write to a d/ path that exists with non-zero length; non-trivial = >=2 backups with deduplication. Resume: scenario (prefix<=3 ops, edits, options) x every crash point of the backup's trace (before each mutating op + torn variant for writes; quick tier thins to <=60 per scenario), then a resumed backup of the unchanged source: block paths successfully written by run 1 are not written by run 2, every entry the interrupted band recorded keeps its addresses in the resumed band, and every file unchanged (size, mtime) with respect to the stitched basis at the moment of the crash is recorded with the basis entry's addresses; non-trivial = crash point after >=1 block write (counted per (scenario, crash point), distinct by construction). Fixed scale probes per run: the twice-relation on files stored as single blocks of several MiB (two of them identical), and the resume relation at 20 crash points of a backup over a basis band of 200 two-entry hunks with one file added at the front, and the resume relation at 8 crash points when the interrupted band sits 12 000 ids above its basis",
         assumptions: &[
             "zero-length leftovers of a killed write may be completed (the documented exception)",
             "crash granularity = one transport operation",
